@@ -325,6 +325,21 @@ func matchCollectionName(sampleCollection, targetCollection string) (bool, bool)
 		db1 == cdcreader.AllDatabase || collection1 == cdcreader.AllCollection
 }
 
+// partialOverlapCollectionName returns true if the two names select a common collection
+// but neither of them contains the other one, like `db1.*` and `*.c1`
+func partialOverlapCollectionName(name1, name2 string) bool {
+	db1, collection1 := util.GetCollectionNameFromFull(name1)
+	db2, collection2 := util.GetCollectionNameFromFull(name2)
+	overlap := (db1 == db2 || db1 == cdcreader.AllDatabase || db2 == cdcreader.AllDatabase) &&
+		(collection1 == collection2 || collection1 == cdcreader.AllCollection || collection2 == cdcreader.AllCollection)
+	if !overlap {
+		return false
+	}
+	match1, _ := matchCollectionName(name1, name2)
+	match2, _ := matchCollectionName(name2, name1)
+	return !match1 && !match2
+}
+
 func (e *MetaCDC) checkDuplicateCollection(uKey string,
 	newCollectionNames []string,
 	extraInfo model.ExtraInfo,
@@ -350,6 +365,11 @@ func (e *MetaCDC) checkDuplicateCollection(uKey string,
 			for _, name := range names {
 				match, containAny := matchCollectionName(name, newCollectionName)
 				if match && containAny && !lo.Contains(e.collectionNames.excludeData[uKey], newCollectionName) {
+					duplicateCollections = append(duplicateCollections, newCollectionName)
+					break
+				}
+				// two wildcard specs, like `db1.*` and `*.c1`, share a collection but neither contains the other
+				if partialOverlapCollectionName(name, newCollectionName) {
 					duplicateCollections = append(duplicateCollections, newCollectionName)
 					break
 				}
